@@ -1,7 +1,7 @@
-(* Props/C02Reparse.v - property C02 (text level): the re-parse specification rr (Reparse.v, validated per run by correspondence stage 8) composed with the specified builder, the title refresh and the projector: one more pass computed block by block for every tree; block-level fixpoint on settled notes, byte-level fixpoint whenever every line is written the same again; witnesses for two clauses of reparse_safe
+(* Props/C02Reparse.v - property C02 (text level): the re-parse specification rr (Reparse.v, validated per run by correspondence stage 8) composed with the specified builder, the title refresh and the projector: one more pass computed block by block for every tree; block-level fixpoint on settled notes, byte-level fixpoint whenever every line is written the same again (in particular when note links carry no .md and the current title); witnesses for two clauses of reparse_safe
    Only statements, each closed by an `exact`, pinned by a `Check`, followed by `Print Assumptions`. *)
 From Coq Require Import ZArith Permutation List.
-From IweV Require Import Str Text Ast RelPath Arena Project SectionsSpec Check_Norm NormFacts SectionsFacts HistoryText Reparse ReparseFacts ReparseText.
+From IweV Require Import Str Text Ast RelPath Arena Project SectionsSpec Check_Norm NormFacts SectionsFacts HistoryText Reparse ReparseFacts ReparseText ReparseCalm.
 Local Open Scope string_scope.
 Local Open Scope list_scope.
 
@@ -109,6 +109,32 @@ Check C02_fixpoint_document_md :
           wrap_metadata meta (tree_to_markdown o tables (key_parent key) t).
 Print Assumptions C02_fixpoint_document_md.
 
+Theorem C02_fixpoint_text_calm :
+  forall (ctx : titles) (o : opts) (key : string) (t : tree) (tables : list string),
+         reparse_safe o (project (key_parent key) t) = true ->
+         forallb (gcalm ctx (key_parent key) o) (project (key_parent key) t) = true ->
+         tree_to_markdown o tables (key_parent key)
+           (tmap (norm_node ctx) (spec_tree key (rr o (project (key_parent key) t)))) =
+         tree_to_markdown o tables (key_parent key) t.
+Proof. exact ReparseCalm.fixpoint_text_calm. Qed.
+Check C02_fixpoint_text_calm :
+  forall (ctx : titles) (o : opts) (key : string) (t : tree) (tables : list string),
+         reparse_safe o (project (key_parent key) t) = true ->
+         forallb (gcalm ctx (key_parent key) o) (project (key_parent key) t) = true ->
+         tree_to_markdown o tables (key_parent key)
+           (tmap (norm_node ctx) (spec_tree key (rr o (project (key_parent key) t)))) =
+         tree_to_markdown o tables (key_parent key) t.
+Print Assumptions C02_fixpoint_text_calm.
+
+Theorem C02_calm_line :
+  forall (ctx : titles) (dir : string) (o : opts) (l : list inline),
+         forallb (calm ctx o) l = true -> line_md_stable ctx dir o l = true.
+Proof. exact ReparseCalm.calm_line. Qed.
+Check C02_calm_line :
+  forall (ctx : titles) (dir : string) (o : opts) (l : list inline),
+         forallb (calm ctx o) l = true -> line_md_stable ctx dir o l = true.
+Print Assumptions C02_calm_line.
+
 Theorem C02_settled_fixed :
   forall (ctx : titles) (dir : string) (o : opts) (g : list gblock),
          settled ctx dir o g = true -> map (gagain ctx dir o) g = g.
@@ -152,9 +178,14 @@ Example C02_fixpoint_nonvacuous :
   reparse_safe ex_opts ex_written = true /\ settled ex_ctx (key_parent ex_key) ex_opts ex_written = true /\
   project (key_parent ex_key) (tmap (norm_node ex_ctx) (spec_tree ex_key (rr ex_opts ex_written))) = ex_written.
 Proof. split; [apply ex_in_class | split; [apply ex_in_class | exact ex_fixpoint]]. Qed.
-(* ... and the byte-level hypothesis also by blocks that are NOT settled (text in pieces, a link title) *)
+(* ... and the byte-level hypotheses also by blocks that are NOT settled (text in pieces, a link title) *)
 Example C02_fixpoint_md_nonvacuous :
   forallb (md_settled ex_ctx (key_parent ex_key) ex_opts) ex_written = true /\
   forallb (md_settled ex_ctx "" ex_opts) [GPara [Str "a"; Str " "; Str "b"]; GPara [Link "http://x" "t" Regular [Str "y"]]] = true /\
   settled ex_ctx "" ex_opts [GPara [Str "a"; Str " "; Str "b"]; GPara [Link "http://x" "t" Regular [Str "y"]]] = false.
 Proof. exact ex_md_settled. Qed.
+Example C02_fixpoint_calm_nonvacuous :
+  forallb (gcalm ex_ctx (key_parent ex_key) ex_opts) ex_written = true /\
+  forallb (gcalm ex_ctx "" ex_opts) [GPara [Str "a"; Str " "; Str "b"]; GPara [Link "http://x" "t" Regular [Str "y"]]] = true /\
+  gcalm ex_ctx "" (Opts "") (GPara [Str "see "; Link "a.md" "" Regular [Str "x"]]) = false.
+Proof. exact ex_calm. Qed.
